@@ -170,7 +170,7 @@ func (b *book) setProblems(idx int64) (e *eonRec, problems []string, outOfRange 
 	return
 }
 
-func tsBefore(ts int64, t uint64) bool { return ts < 0 || uint64(ts) < t }
+func tsBefore(ts int64, t uint64) bool    { return ts < 0 || uint64(ts) < t }
 func actReached(act int64, n uint64) bool { return act < 0 || uint64(act) <= n }
 
 // justify says why identity id may be inside a trigger with block number trigBlock emitted
